@@ -13,9 +13,32 @@ type NameAddr struct {
 	Addr        *AddrSpec
 }
 
+// indexOfLAQuot returns the position of the '<' that opens the addr-spec of a
+// name-addr: the first one outside the quoted display name, -1 if there is none
+func indexOfLAQuot(s string) int {
+	quoted := false
+	for i := 0; i < len(s); i++ {
+		switch {
+		case quoted && s[i] == '\\':
+			i++
+		case s[i] == '"':
+			quoted = !quoted
+		case s[i] == '<' && !quoted:
+			return i
+		}
+	}
+	return -1
+}
+
 func ParseNameAddr(nameAddr string) (*NameAddr, error) {
-	pos1 := strings.IndexByte(nameAddr, '<')
-	pos2 := strings.IndexByte(nameAddr, '>')
+	pos1 := indexOfLAQuot(nameAddr)
+	pos2 := -1
+	if pos1 != -1 {
+		pos2 = strings.IndexByte(nameAddr[pos1:], '>')
+		if pos2 != -1 {
+			pos2 += pos1
+		}
+	}
 	if pos1 == -1 || pos2 == -1 || pos2 < pos1 {
 		return nil, errors.New("malformatted name-addr")
 	}
